@@ -740,7 +740,7 @@ Proof.
       assert (Hdisk : (if wb then Some r' else Some r) = Some r
                       \/ (if wb then Some r' else Some r) = Some (repair_ref' fx T r)).
       { destruct wb; [|left; reflexivity]. destruct Hcw as [->|Hns].
-        - rewrite (Hstrict eq_refl) in *. discriminate.
+        - specialize (Hstrict eq_refl). discriminate.
         - rewrite (load_ref_nosyms c r Hto Hns) in El. inversion El; subst lr. right. subst r'. reflexivity. }
       destruct (ref_rows (r_data r')) as [rows|].
       * destruct (ref_info_rows false acc rows) as [e0|acc3]; [|easy].
@@ -756,11 +756,280 @@ Proof.
       assert (Hdisk : (if wb then Some r' else Some r) = Some r
                       \/ (if wb then Some r' else Some r) = Some (repair_ref' fx T r)).
       { destruct wb; [|left; reflexivity]. destruct Hcw as [->|Hns].
-        - rewrite (Hstrict eq_refl) in *. discriminate.
+        - specialize (Hstrict eq_refl). discriminate.
         - rewrite (load_ref_nosyms c r Hto Hns) in El. inversion El; subst lr. right. subst r'. reflexivity. }
       destruct (ref_rows (r_data r')) as [rows|].
       * destruct (ref_info_rows false acc rows) as [e0|acc3]; [|easy].
         intro H; inversion H; subst. cbn. csplit; [right; reflexivity|right; reflexivity|assumption].
       * intro H; inversion H; subst. cbn. csplit; [right; reflexivity|right; reflexivity|assumption].
     + easy.
+Qed.
+
+(* ---------------------------------------------------------------- the whole pass *)
+
+Fixpoint seq_pass (st : vstate) (d : dir) : Prop :=
+  match d with
+  | [] => True
+  | u :: t => exists st', utt_pass st u st' /\ seq_pass st' t
+  end.
+
+Lemma run_sound c fx : plain_yield c -> clean_writes c fx ->
+  forall d st acc d' acc',
+  run_pass false true c fx st acc d = (d', inr acc') ->
+  d' = map (repair_utt' fx) d /\ seq_pass st d' /\ acc' = acc.
+Proof.
+  intros Hp Hc. induction d as [|u t IH]; intros st acc d' acc'; cbn [run_pass map].
+  - intro H; inversion H; subst. repeat split.
+  - destruct (step_utt false true c fx st acc u) as [u' [e|[st1 acc1]]] eqn:Es; [easy|].
+    destruct (run_pass false true c fx st1 acc1 t) as [t' r] eqn:Er.
+    intro H; inversion H; subst; clear H.
+    destruct (step_sound _ _ _ _ _ _ _ _ Hp Hc Es) as (-> & Hpass & ->).
+    destruct (IH _ _ _ _ Er) as (-> & Hseq & ->).
+    split; [reflexivity|]. split; [|reflexivity]. cbn [seq_pass]. eexists; split; eassumption.
+Qed.
+
+Lemma run_complete c fx : plain_yield c -> clean_writes c fx -> syms_nonneg c ->
+  forall d st acc, Forall utt_tokens_nonneg d -> seq_pass st (map (repair_utt' fx) d) ->
+  run_pass false true c fx st acc d = (map (repair_utt' fx) d, inr acc).
+Proof.
+  intros Hp Hc Hs. induction d as [|u t IH]; intros st acc Htok; cbn [run_pass map seq_pass].
+  - reflexivity.
+  - intros (st' & Hpass & Hseq). inversion Htok; subst.
+    rewrite (step_complete c fx st acc u st' Hp Hc Hs H1 Hpass).
+    rewrite (IH st' acc H2 Hseq). reflexivity.
+Qed.
+
+Lemma utt_partial_refl fx u : utt_partial fx u u.
+Proof. destruct fx; cbn; [repeat split; left|]; reflexivity. Qed.
+
+Lemma utt_partial_repaired fx u : utt_partial fx u (repair_utt' fx u).
+Proof. destruct fx; cbn; [repeat split; right|]; reflexivity. Qed.
+
+Lemma run_error_partial c fx : plain_yield c -> clean_writes c fx ->
+  forall d st acc d' e,
+  run_pass false true c fx st acc d = (d', inl e) -> Forall2 (utt_partial fx) d d'.
+Proof.
+  intros Hp Hc. induction d as [|u t IH]; intros st acc d' e; cbn [run_pass].
+  - easy.
+  - destruct (step_utt false true c fx st acc u) as [u' [e0|[st1 acc1]]] eqn:Es.
+    + intro H; inversion H; subst; clear H. constructor.
+      * eapply step_error_partial; eassumption.
+      * clear. induction t; constructor; [apply utt_partial_refl|assumption].
+    + destruct (run_pass false true c fx st1 acc1 t) as [t' r] eqn:Er.
+      intro H; inversion H; subst; clear H.
+      destruct (step_sound _ _ _ _ _ _ _ _ Hp Hc Es) as (-> & _ & _).
+      constructor; [apply utt_partial_repaired|]. eapply IH; eassumption.
+Qed.
+
+Definition compat (st : vstate) (F : nat) (dt : dtype) (d2 : bool) : Prop :=
+  st_nf_ok st F /\ st_dt_ok st dt /\ st_2d_ok st d2.
+
+Lemma ref_ok_dim d2 T r : ref_ok d2 T r -> ref_dim r = d2.
+Proof.
+  unfold ref_ok, ref_dim. intros (_ & _ & [(-> & t & ->)|(-> & rows & -> & _)]); reflexivity.
+Qed.
+
+Lemma seq_pass_wf d : forall st,
+  seq_pass st d <-> exists F dt d2, compat st F dt d2 /\ Forall (utt_ok F dt d2) d.
+Proof.
+  induction d as [|u t IH]; intro st; cbn [seq_pass].
+  - split; [intros _|trivial].
+    exists (match s_nf st with Some n => n | None => 0%nat end),
+           (match s_dt st with Some x => x | None => DF32 end),
+           (match s_2d st with Some b => b | None => false end).
+    split; [|constructor]. unfold compat, st_nf_ok, st_dt_ok, st_2d_ok.
+    repeat split; intros x Hx; rewrite Hx; reflexivity.
+  - split.
+    + intros (st' & (T & F0 & Hc & Hsh & Hdt & Hnf & Hali & Href & Hst') & Hseq).
+      apply IH in Hseq. destruct Hseq as (F & dt & d2 & (Cn & Cd & C2) & HF).
+      assert (F = F0) by (symmetry; apply Cn; subst st'; reflexivity).
+      assert (dt = f_dtype (u_feat u)) by (symmetry; apply Cd; subst st'; reflexivity).
+      subst F dt.
+      assert (Hfr : frames (u_feat u) = T) by (unfold frames; rewrite Hsh; reflexivity).
+      exists F0, (f_dtype (u_feat u)), d2. split.
+      * repeat split; try assumption.
+        destruct (u_ref u) as [r|] eqn:Er.
+        -- specialize (Href _ eq_refl). apply ref_pass_ok in Href. destruct Href as [_ H2].
+           assert (ref_dim r = d2) as <- by (apply C2; subst st'; reflexivity). assumption.
+        -- intros x Hx. apply C2. subst st'. assumption.
+      * constructor; [|assumption]. unfold utt_ok, feat_ok. rewrite Hfr.
+        csplit; try assumption; try reflexivity; [eexists; eassumption|].
+        intros r Er. specialize (Href _ Er). apply ref_pass_ok in Href. destruct Href as [H1 _].
+        assert (ref_dim r = d2) as <- by (apply C2; subst st'; rewrite Er; reflexivity). assumption.
+    + intros (F & dt & d2 & (Cn & Cd & C2) & HF). inversion HF as [|? ? Hu Ht]; subst.
+      destruct Hu as ((Hc & Hdt & T & Hsh) & Hali & Href).
+      assert (Hfr : frames (u_feat u) = T) by (unfold frames; rewrite Hsh; reflexivity).
+      rewrite Hfr in *. clear Hfr.
+      eexists. split.
+      * exists T, F. csplit; try eassumption; try reflexivity.
+        -- subst dt. assumption.
+        -- intros r Er. apply ref_pass_ok. rewrite (ref_ok_dim _ _ _ (Href _ Er)). split; [apply Href|]; assumption.
+      * apply IH. exists F, dt, d2. split; [|assumption]. unfold compat, st_nf_ok, st_dt_ok, st_2d_ok. cbn.
+        repeat split; intros x Hx; inversion Hx; subst; try reflexivity.
+        destruct (u_ref u) as [r|] eqn:Er.
+        -- inversion H0; subst. apply (ref_ok_dim _ T). apply Href. reflexivity.
+        -- apply C2. assumption.
+Qed.
+
+Lemma seq_pass_wellformed d : seq_pass st0 d <-> WellFormed d.
+Proof.
+  rewrite seq_pass_wf. unfold WellFormed. split.
+  - intros (F & dt & d2 & _ & H). eauto.
+  - intros (F & dt & d2 & H). exists F, dt, d2. split; [|assumption].
+    unfold compat, st_nf_ok, st_dt_ok, st_2d_ok, st0. cbn. repeat split; intros x Hx; discriminate.
+Qed.
+
+(* ---------------------------------------------------------------- validate_spect_data_set *)
+
+Lemma norm_fix_tolerance fa : norm_fix fa = tolerance fa.
+Proof. destruct fa as [|k|[|]]; reflexivity. Qed.
+
+Lemma tokens_nonneg_utts d : tokens_nonneg d <-> Forall utt_tokens_nonneg d.
+Proof. reflexivity. Qed.
+
+Lemma validate_result c fa d d' :
+  plain_yield c -> clean_writes c (tolerance fa) ->
+  validate c fa d = (d', None) -> d' = repair (tolerance fa) d /\ WellFormed d'.
+Proof.
+  intros Hp Hc. unfold validate. rewrite norm_fix_tolerance.
+  destruct (run_pass false true c (tolerance fa) st0 acc0 d) as [d1 [e|acc]] eqn:E; [easy|].
+  intro H; inversion H; subst; clear H.
+  destruct (run_sound c _ Hp Hc _ _ _ _ _ E) as (-> & Hs & _).
+  split; [symmetry; apply repair_map|]. apply seq_pass_wellformed. assumption.
+Qed.
+
+Lemma validate_accepts c fa d :
+  plain_yield c -> clean_writes c (tolerance fa) -> syms_nonneg c -> tokens_nonneg d ->
+  WellFormed (repair (tolerance fa) d) -> validate c fa d = (repair (tolerance fa) d, None).
+Proof.
+  intros Hp Hc Hs Ht Hw. unfold validate. rewrite norm_fix_tolerance.
+  rewrite repair_map in *. apply seq_pass_wellformed in Hw.
+  rewrite (run_complete c _ Hp Hc Hs d st0 acc0 Ht Hw). reflexivity.
+Qed.
+
+Lemma validate_accepts_iff c fa d :
+  plain_yield c -> clean_writes c (tolerance fa) -> syms_nonneg c -> tokens_nonneg d ->
+  ((exists d', validate c fa d = (d', None)) <-> WellFormed (repair (tolerance fa) d)).
+Proof.
+  intros Hp Hc Hs Ht. split.
+  - intros (d' & H). destruct (validate_result _ _ _ _ Hp Hc H) as [-> Hw]. assumption.
+  - intro Hw. eexists. apply validate_accepts; assumption.
+Qed.
+
+Lemma validate_error_partial c fa d d' e :
+  plain_yield c -> clean_writes c (tolerance fa) ->
+  validate c fa d = (d', Some e) -> Forall2 (utt_partial (tolerance fa)) d d'.
+Proof.
+  intros Hp Hc. unfold validate. rewrite norm_fix_tolerance.
+  destruct (run_pass false true c (tolerance fa) st0 acc0 d) as [d1 [e0|acc]] eqn:E; [|easy].
+  intro H; inversion H; subst; clear H. eapply run_error_partial; eassumption.
+Qed.
+
+(* a valid tensor is left alone by every repair *)
+Lemma repair_utt_ok k F dt d2 u : utt_ok F dt d2 u -> repair_utt k u = u.
+Proof.
+  intros ((Hc & _ & _) & Ha & Hr). unfold repair_utt.
+  destruct u as [f a r]. cbn [u_feat u_ali u_ref] in *. f_equal.
+  - destruct f as [cu dt0 sh]. cbn in *. subst. reflexivity.
+  - destruct a as [a0|]; [|reflexivity]. cbn. rewrite (repair_ali_ok _ _ _ (Ha _ eq_refl)). reflexivity.
+  - destruct r as [r0|]; [|reflexivity]. cbn. rewrite (repair_ref_ok _ _ _ _ (Hr _ eq_refl)). reflexivity.
+Qed.
+
+Lemma repair_wf_id fx d : WellFormed d -> repair fx d = d.
+Proof.
+  intros (F & dt & d2 & H). destruct fx as [k|]; [|reflexivity]. cbn.
+  induction H; cbn; [reflexivity|]. rewrite IHForall, (repair_utt_ok k F dt d2) by assumption. reflexivity.
+Qed.
+
+Lemma repair_tokens fx d : tokens_nonneg d -> tokens_nonneg (repair fx d).
+Proof.
+  rewrite repair_map. unfold tokens_nonneg. intro H. induction H; cbn; constructor; [|assumption].
+  intros r Hr. destruct (repair_utt'_parts fx x) as (_ & _ & Pr). rewrite Pr in Hr.
+  destruct (u_ref x) as [r0|]; [|easy]. inversion Hr; subst. rewrite repair_ref'_tokens. apply H. reflexivity.
+Qed.
+
+Lemma strict_accepts_iff c d :
+  plain_yield c -> syms_nonneg c -> tokens_nonneg d ->
+  (validate c FNone d = (d, None) <-> WellFormed d).
+Proof.
+  intros Hp Hs Ht. split.
+  - intro H. apply (validate_result c FNone) in H; [|assumption|left; reflexivity]. apply H.
+  - intro Hw. apply (validate_accepts c FNone d Hp); try assumption. left; reflexivity.
+Qed.
+
+Lemma fix_then_strict c fa d d' :
+  plain_yield c -> clean_writes c (tolerance fa) -> syms_nonneg c -> tokens_nonneg d ->
+  validate c fa d = (d', None) -> forall fa', clean_writes c (tolerance fa') -> validate c fa' d' = (d', None).
+Proof.
+  intros Hp Hc Hs Ht H fa' Hc'. destruct (validate_result _ _ _ _ Hp Hc H) as [-> Hw].
+  rewrite <- (repair_wf_id (tolerance fa') _ Hw) at 2.
+  apply validate_accepts; try assumption.
+  - apply repair_tokens. assumption.
+  - rewrite (repair_wf_id _ _ Hw). assumption.
+Qed.
+
+(* ---- strict validation never writes, whatever the data set's options *)
+Lemma feat_part_none v st f f' T F st1 : feat_part v None st f = inr (f', T, F, st1) -> f' = f.
+Proof.
+  unfold feat_part. cbn [is_some negb]. rewrite andb_true_r.
+  destruct (v && negb _); [easy|]. destruct (v && f_cuda f) eqn:E; [easy|].
+  destruct (f_shape f) as [|? [|? [|? ?]]]; try easy.
+  destruct (s_nf st); [destruct (v && negb _); [easy|]|]; intro H; inversion H; reflexivity.
+Qed.
+
+Lemma ali_part_none v T a a' : ali_part v None T a = inr a' -> a' = a.
+Proof.
+  destruct v; [|intro H; inversion H; reflexivity].
+  intro H. apply ali_part_sound in H. destruct H as [-> _]. reflexivity.
+Qed.
+
+Lemma step_strict_unchanged info v c st acc u : fst (step_utt info v c None st acc u) = u.
+Proof.
+  unfold step_utt.
+  destruct (match u_ref u with
+            | Some r => match load_ref c r with inl e => inl e | inr lr => inr (Some lr) end
+            | None => inr None end) as [e|lref]; [reflexivity|].
+  destruct (c_suppress_alis c); [reflexivity|].
+  destruct (feat_part v None st (u_feat u)) as [e|[[[f' T] F] st1]] eqn:Ef; [reflexivity|].
+  apply feat_part_none in Ef. subst f'.
+  destruct (u_ali u) as [a|] eqn:Ea.
+  - destruct (ali_part v None T a) as [e|a'] eqn:Ea1.
+    { cbn. rewrite <- Ea. apply utt_eta. }
+    apply ali_part_none in Ea1. subst a'.
+    assert (Hu : forall x, mkUtt (u_feat u) (Some a) x = mkUtt (u_feat u) (u_ali u) x) by (rewrite Ea; reflexivity).
+    destruct info.
+    + destruct (ali_info_runs _ _) as [e|acc2]; [cbn; rewrite <- Ea; apply utt_eta|].
+      destruct lref as [lr|]; [|cbn; rewrite <- Ea; apply utt_eta].
+      destruct (if v then ref_part None T st1 lr else inr (lr, false, st1)) as [e|[[r' wb] st2]] eqn:Er;
+        [cbn; rewrite <- Ea; apply utt_eta|].
+      assert (wb = false) as ->.
+      { destruct v; [apply ref_part_sound in Er; apply Er; reflexivity|inversion Er; reflexivity]. }
+      destruct (ref_rows (r_data r')); [destruct (ref_info_rows _ _ _)|]; cbn; rewrite <- Ea; apply utt_eta.
+    + destruct lref as [lr|]; [|cbn; rewrite <- Ea; apply utt_eta].
+      destruct (if v then ref_part None T st1 lr else inr (lr, false, st1)) as [e|[[r' wb] st2]] eqn:Er;
+        [cbn; rewrite <- Ea; apply utt_eta|].
+      assert (wb = false) as ->.
+      { destruct v; [apply ref_part_sound in Er; apply Er; reflexivity|inversion Er; reflexivity]. }
+      destruct (ref_rows (r_data r')); [destruct (ref_info_rows _ _ _)|]; cbn; rewrite <- Ea; apply utt_eta.
+  - destruct lref as [lr|]; [|cbn; rewrite <- Ea; apply utt_eta].
+    destruct (if v then ref_part None T st1 lr else inr (lr, false, st1)) as [e|[[r' wb] st2]] eqn:Er;
+      [cbn; rewrite <- Ea; apply utt_eta|].
+    assert (wb = false) as ->.
+    { destruct v; [apply ref_part_sound in Er; apply Er; reflexivity|inversion Er; reflexivity]. }
+    destruct (ref_rows (r_data r')); [destruct (ref_info_rows _ _ _)|]; cbn; rewrite <- Ea; apply utt_eta.
+Qed.
+
+Lemma run_strict_unchanged info v c : forall d st acc, fst (run_pass info v c None st acc d) = d.
+Proof.
+  induction d as [|u t IH]; intros st acc; cbn [run_pass]; [reflexivity|].
+  pose proof (step_strict_unchanged info v c st acc u) as Hs.
+  destruct (step_utt info v c None st acc u) as [u' [e|[st1 acc1]]]; cbn in Hs; subst u'; [reflexivity|].
+  specialize (IH st1 acc1). destruct (run_pass info v c None st1 acc1 t) as [t' r]. cbn in *. subst. reflexivity.
+Qed.
+
+Lemma strict_never_writes c d : fst (validate c FNone d) = d.
+Proof.
+  unfold validate. cbn [norm_fix].
+  pose proof (run_strict_unchanged false true c d st0 acc0) as H.
+  destruct (run_pass false true c None st0 acc0 d). cbn in *. assumption.
 Qed.
